@@ -261,7 +261,10 @@ class Pipeline(object):
     def _run_producer_wrapper(self):
         '''Run the producer, if exception, stop engine.'''
         try:
-            yield from self._producer.process()
+            # A stop requested before this task had its first step must not
+            # be undone by Producer.process() marking itself as running.
+            if self._state == PipelineState.running:
+                yield from self._producer.process()
         except Exception as error:
             if not isinstance(error, StopIteration):
                 # Stop the workers so the producer exception will be handled
